@@ -692,7 +692,7 @@ class TorConfig:
                 )
             socks_config = self.SocksPort[0]
         else:
-            if not any([socks_config in port for port in self.SocksPort]):
+            if not any([socks_config in (port, port.split()[0]) for port in self.SocksPort]):
                 # need to configure Tor
                 self.SocksPort.append(socks_config)
                 try:
